@@ -22,6 +22,8 @@ def inject(w, fs, kind, pos):
         fs.fault_at = fs.nops + pos
     elif kind == "changed-during-write":
         fs.dump_fault = True
+    elif kind == "not-writable":
+        fs.deny_write = True
 
 
 def file_state(w, fs, fmt):
@@ -34,7 +36,8 @@ def threaded(fmts):
     def fn(w):
         fmt = w.pick(fmts, "format")
         bad_tick = w.choose(TICKS + 1, "failing_tick")  # TICKS = no fault at all
-        kind = w.pick(["os-error", "changed-during-write"], "fault_kind") if bad_tick < TICKS \
+        kind = w.pick(["os-error", "changed-during-write", "not-writable"], "fault_kind") \
+            if bad_tick < TICKS \
             else "none"
         pos = w.choose(MAXOPS, "fault_position") if kind == "os-error" else 0
         fs = P.make_fs(w, fmt)
@@ -62,8 +65,10 @@ def threaded(fmts):
                         w.escaped(exc, "tick")
                     failed = True  # in the timer thread this just ends the thread
                 injected_hit = (i == bad_tick and (fs.fault_at is None and kind == "os-error"
-                                                   or kind == "changed-during-write"))
+                                                   or kind in ("changed-during-write",
+                                                               "not-writable")))
                 fs.fault_at = None
+                fs.deny_write = False
                 w.check(len(fs.timers) == ntimers + 1 and fs.timers[-1].started,
                         f"tick {i}: the periodic schedule was not re-armed after "
                         + ("a failing save" if failed or injected_hit else "a save"))
@@ -88,7 +93,8 @@ def asynchronous(fmts):
     def fn(w):
         fmt = w.pick(fmts, "format")
         bad_tick = w.choose(TICKS + 1, "failing_tick")
-        kind = w.pick(["os-error", "changed-during-write"], "fault_kind") if bad_tick < TICKS \
+        kind = w.pick(["os-error", "changed-during-write", "not-writable"], "fault_kind") \
+            if bad_tick < TICKS \
             else "none"
         pos = w.choose(MAXOPS, "fault_position") if kind == "os-error" else 0
         fs = P.make_fs(w, fmt)
@@ -109,6 +115,7 @@ def asynchronous(fmts):
                 seen["saves"] = i + 1
                 fs.fault_at = None
                 fs.dump_fault = False
+                fs.deny_write = False
                 if i == bad_tick:
                     now = file_state(w, fs, fmt)
                     w.check(w.or_(w.eq(now, snaps[i]), w.eq(now, snaps[i - 1] if i else ())),
@@ -144,7 +151,8 @@ def build(tier):
     hs = [
         Harness("threaded-ticks", threaded(["json", "pickle"]),
                 {"ticks": TICKS, "fault": "OSError at FS operation 0..9 of one tick | serialiser "
-                 "raises RuntimeError (state changed during the write) | none"},
+                 "raises RuntimeError (state changed during the write) | directory / file not "
+                 "writable (os.access) | none"},
                 goals=["ticks-done", "fault-hit"],
                 doc="SyncTasks schedule_save closure fired three times with one transient fault"),
         Harness("asyncio-loop", asynchronous(["json", "pickle"]),
